@@ -910,7 +910,10 @@ def tdb_rules(ctx, A):
                     okc = ((lab is True) != neg) == is_ne
                     subj = oth[0]
         val = strip(strip(v)[2][0][1])
-        okv = subj is not None and any(strip(y) == subj for y in walk(val)) and subj[0] == 'field' and any(
+        alts_ = [subj]
+        if subj is not None and subj[0] == 'call' and subj[1].endswith('Ident::as_str') and len(subj[2]) == 1:
+            alts_.append(('field', strip(subj[2][0]), '0'))        # `ident.as_str()` is `ident.0`
+        okv = subj is not None and any(strip(y) in alts_ for y in walk(val)) and (subj[0] == 'field' or len(alts_) == 2) and any(
             isinstance(y, tuple) and y[0] == 'payload' and y[2] == 'Field' for y in walk(subj))
         okn = okc and okv
         detn = 'Some(%s) iff %s' % (show(val)[:60], [(show(c)[:80], l) for c, l in cs])
